@@ -540,12 +540,45 @@ pub fn run(cfg: &Cfg, trim: bool) -> (&'static str, Report, String, String) {
             r.sample(|| format!("random haystack={:?} needle={:?}", h, n));
         }
     }));
+    // planted: a filler haystack of every length 0..=L, one occurrence of the needle at every offset p and a
+    // failed candidate (the needle's first byte/char alone) at every offset q before it - word- or block-wise
+    // search loops have their special cases at multiples of 8/16/32 bytes from the start or from q
+    let maxl = cfg.by(18, 72, 140);
+    rep.merge(par_for(cfg, maxl + 1, |l, r| {
+        for n in ["ab", "a", "abc", "ñb"] {
+            let first = &n[..n.chars().next().unwrap().len_utf8()];
+            for p in 0..=l {
+                if cfg.miri() && !(p % 8 <= 1 || p == l) {
+                    continue;
+                }
+                let qs: Vec<Option<usize>> = if cfg.miri() { vec![None, Some(0)] } else { std::iter::once(None).chain((0..p).map(Some)).collect() };
+                for q in qs {
+                    // filler 'x' everywhere, needle at byte offset p (of the filler), near miss at q
+                    let mut h = String::with_capacity(l + 8);
+                    for i in 0..l {
+                        if i == p {
+                            h.push_str(n);
+                        }
+                        if Some(i) == q && n.len() > first.len() {
+                            h.push_str(first);
+                        }
+                        h.push('x');
+                    }
+                    if p == l {
+                        h.push_str(n);
+                    }
+                    pair(r, trim, &h, n);
+                }
+            }
+        }
+        r.ev("planted-long-haystack");
+    }));
     if trim {
         rep.merge(whitespace(cfg));
     }
     let exh = format!(
-        "all {} haystacks (<= {} chars) x {} needles (<= {} chars) over {{a,b,ñ}}; all {} byte haystacks x {} needles over {{0x61,0x62,0xFF}}; {} x {} strings over {{ñ,ó,個,倀,x}}; {} seeded random (haystack <= 64, needle <= 8){}",
-        hs.len(), hl, ns.len(), nl, bhs.len(), bns.len(), mhs.len(), mns.len(), nrand,
+        "all {} haystacks (<= {} chars) x {} needles (<= {} chars) over {{a,b,ñ}}; all {} byte haystacks x {} needles over {{0x61,0x62,0xFF}}; {} x {} strings over {{ñ,ó,個,倀,x}}; {} seeded random (haystack <= 64, one in eight <= 300, needle <= 8); planted: filler haystacks of every length 0..={} x needle {{ab,a,abc,ñb}} at every offset x a near miss at every earlier offset{}",
+        hs.len(), hl, ns.len(), nl, bhs.len(), bns.len(), mhs.len(), mns.len(), nrand, maxl,
         if trim { "; whitespace: every byte 0..=255 as prefix/suffix/both, all strings over {\\t,\\n,\\x0B,\\x0C,\\r,' ',x,\\0} and over non-ASCII whitespace" } else { "" }
     );
     if trim {
